@@ -65,7 +65,8 @@ def defColl (fs : List String) : Option Coll :=
           | some [n], some [h], some ps, some v => (Desc.new n h [] ps).map fun d => (d, mkFam d .counter [{ labels := d.constPairs, val := .counter v }])
           | _, _, _, _ => none
         | _ => none
-      built.map fun l => { descs := l.map (·.1), fams := l.map (·.2) }
+      -- `nodesc=1`: the collector describes nothing (collector id 0) but still collects its samples
+      built.map fun l => { descs := if fs.contains "nodesc=1" then [] else l.map (·.1), fams := l.map (·.2) }
     else
     let d? := if kind == "pulling" then Desc.new name help [] [] else describe [] [] name help vars consts
     match d? with
